@@ -82,7 +82,8 @@ def deriv1(ctx, prog, cfg):
                             (CB + "range", "Iter::over_range", "self, range"), (CB + "range_mut", "IterMut::over_range", "self, range"),
                             ("<&CircularBuffer<N, T> as IntoIterator>::into_iter", "Iter::new", "self"),
                             (CB + "drain", "Drain::over_range", "self, range")):
-        mm(ctx, "DERIV1", prog, name, [r"call %s\(%s\)" % (tgt, args), r"return %s\(%s\)" % (tgt, args)], cfg, "forwards to %s(%s)" % (tgt, args), msg % (name, tgt))
+        forwards(ctx, prog, cfg, name, tgt, len(args.split(",")), msg % (name, tgt),
+                 also=(CB + "iter",) if name.startswith("<&CircularBuffer") else ())
     for name, prim in (("Iter::new", "as_slices"), ("IterMut::new", "as_mut_slices")):
         ty = name.split("::")[0]
         mm(ctx, "DERIV1", prog, name, [r"call CircularBuffer::%s\(buf\)" % prim,
@@ -104,11 +105,29 @@ def deriv1(ctx, prog, cfg):
     from . import c13
 
     c13.dbg1(ctx, prog, cfg, "DERIV1")
-    for name, callee in (("<CircularBuffer<N, T> as PartialOrd<CircularBuffer<M, U>>>::partial_cmp", "partial_cmp"), ("<CircularBuffer<N, T> as Ord>::cmp", "cmp")):
-        mm(ctx, "DERIV1", prog, name, [r"call CircularBuffer::iter\(self\)", r"call CircularBuffer::iter\(other\)",
-                                       r"call core::iter::traits::iterator::Iterator::%s\(CircularBuffer::iter\(self\), CircularBuffer::iter\(other\)\)" % callee,
-                                       r"return Iterator::%s\(CircularBuffer::iter\(self\), CircularBuffer::iter\(other\)\)" % callee], cfg,
-           "self.iter().%s(other.iter())" % callee, "`%s` is not the lexicographic comparison of the two iter()s, self on the left" % name)
+    c13.ord1(ctx, prog, cfg, "DERIV1")
+
+
+def forwards(ctx, prog, cfg, name, tgt, nargs, msg, also=()):
+    """`name` returns, unchanged, the result of its one call of `tgt` (or of a sibling in `also`, itself decided to forward
+    to `tgt`) on its own parameters in order; it calls nothing else"""
+    f = ctx.need_fn(prog, name, "DERIV1")
+    if f is None:
+        return
+    calls = [(b, t_) for b, t_ in f.calls(False)]
+    ok = len(calls) == 1 and mir.callee_short(calls[0][1]) in (tgt,) + tuple(also)
+    why = "calls %s" % [mir.callee_short(t_) for _, t_ in calls]
+    if ok:
+        b = calls[0][0]
+        a = [mir.strip_casts(f.deep_simplify(x)) for x in f.call_args(b)]
+        ok = a == [("param", i + 1) for i in range(len(a))] and (len(a) == nargs or mir.callee_short(calls[0][1]) in also)
+        why = "%s(%s)" % (mir.callee_short(calls[0][1]), ", ".join(mir.fmt(x, f) for x in a))
+        if ok:
+            r = [mir.strip_casts(f.deep_simplify(f.return_expr(rb))) for rb in f.return_blocks()]
+            ok = len(r) == 1 and isinstance(r[0], tuple) and r[0][0] == "call" and r[0][3] == b
+            if not ok:
+                why += ", but its result is not what is returned"
+    ctx.check(ok, "DERIV1", name, "forwards to %s with its own arguments" % tgt, f.loc, msg + " (%s)" % why, why, cfg)
 
 
 def _none_edges(f, b):
